@@ -260,6 +260,15 @@ func optOf(t *rapid.T, label string, v string) Opt {
 	return S(v)
 }
 
+// genIssuerFormat: the optional Format attribute of an Issuer (absent three times out of four). Whatever it says,
+// the Issuer VALUE is what is compared with the configured IdP issuer.
+func genIssuerFormat(t *rapid.T, label string) Opt {
+	if rapid.IntRange(0, 3).Draw(t, label+"Set") != 0 {
+		return None
+	}
+	return S(rapid.SampledFrom([]string{"urn:oasis:names:tc:SAML:2.0:nameid-format:entity", "urn:oasis:names:tc:SAML:1.1:nameid-format:unspecified", "urn:oasis:names:tc:SAML:2.0:nameid-format:persistent", "", "urn:example:other"}).Draw(t, label))
+}
+
 // NameIDFormats the simulator stamps on NameIDs.
 var NameIDFormats = []string{"urn:oasis:names:tc:SAML:1.1:nameid-format:emailAddress", "urn:oasis:names:tc:SAML:1.1:nameid-format:unspecified", "urn:oasis:names:tc:SAML:2.0:nameid-format:persistent", "urn:oasis:names:tc:SAML:2.0:nameid-format:transient", ""}
 
@@ -307,6 +316,7 @@ func GenAssertionModel(o ModelOpts) *rapid.Generator[AssertionModel] {
 		if o.SP.IdPIssuer == "" {
 			a.Issuer = S(o.text(t, "aIssuerFree"))
 		}
+		a.IssuerFormat = genIssuerFormat(t, "aIssuerFormat")
 		if rapid.Bool().Draw(t, "nameIDFormatSet") {
 			a.NameIDFormat = S(rapid.SampledFrom(NameIDFormats).Draw(t, "nameIDFormat"))
 		}
@@ -407,6 +417,7 @@ func GenResponseModel(o ModelOpts) *rapid.Generator[ResponseModel] {
 		if o.SP.IdPIssuer == "" {
 			m.Issuer = S(o.text(t, "rIssuerFree"))
 		}
+		m.IssuerFormat = genIssuerFormat(t, "rIssuerFormat")
 		if o.Embedded && rapid.IntRange(0, 7).Draw(t, "extAssertion") == 0 {
 			ev := embeddedAssertion(o, "ext-copy")
 			m.ExtAssertion = &ev
